@@ -153,7 +153,7 @@ package server
 
 //@ func (*Server).serve$3$1()
 //@   requires s != nil && conn != nil && c != nil && conn.conn != nil && conn.onErrorFunc != nil && ctx != nil && muState == 0
-//@   safety[C17]
+//@   safety[C16,C17]
 //@   modifies s.activeConnections, s.activeConnectionCount, tracks, untracks, closes, closeCbs, errorCbs, liveCount, atomicTrueLoads
 //@   ensures[C17.once] closes == old(closes) + 1 && untracks == old(untracks) + 1 && tracks == old(tracks)
 //@   ensures[C17.once] s.OnCloseConnFunc != nil ==> closeCbs == old(closeCbs) + 1
